@@ -128,19 +128,33 @@ def r_wrapper_order(P, chk):
     for n in pm.walk():
         if n["k"] != "IfStmt":
             continue
-        cond = strip(n["c"][0])
-        if cond is None or cond["k"] != "BinaryOperator" or cond["op"] != "==" or const_value(cond["c"][1]) != 0:
-            continue
-        call = strip(cond["c"][0])
-        if call is None or call["k"] != "CallExpr" or call.get("callee") != "strcmp" or not key(call["c"][1]).endswith("->key"):
-            continue
-        lit = strip(call["c"][2])
-        if lit is None or lit["k"] != "StringLiteral":
+        # `strcmp(m->key, "a") == 0`, or a disjunction of such tests sharing one branch
+        def disjuncts(e):
+            e = strip(e)
+            if e is not None and e["k"] == "BinaryOperator" and e["op"] == "||":
+                return disjuncts(e["c"][0]) + disjuncts(e["c"][1])
+            return [e]
+        lits = []
+        for cond in disjuncts(n["c"][0]):
+            if cond is None or cond["k"] != "BinaryOperator" or cond["op"] != "==" or const_value(cond["c"][1]) != 0:
+                lits = None
+                break
+            call = strip(cond["c"][0])
+            if call is None or call["k"] != "CallExpr" or call.get("callee") != "strcmp" or not resolve_key(pm, call["c"][1]).endswith("->key"):
+                lits = None
+                break
+            lit = strip(call["c"][2])
+            if lit is None or lit["k"] != "StringLiteral":
+                lits = None
+                break
+            lits.append(lit["s"])
+        if not lits:
             continue
         then = n["c"][1]
         forces = any(x["k"] == "CompoundAssignOperator" and x["op"] == "|=" and (const_value(x["c"][1]) or 0) & ext["EXT_COMPLETE"]
                      for x in walk(then))
-        keys[lit["s"]] = forces
+        for l in lits:
+            keys[l] = forces
     chk.floor(rid, len(keys), 9, "metadata keys compared in process_metadata_stack")
     quiet = {k for k, forces in keys.items() if not forces}
     ok = quiet == CONTROL_KEYS
@@ -312,6 +326,12 @@ def r_metakey(P, chk):
                     ok, why = _key_arg_ok(P, f, fake)
                 else:
                     ok = _normalised_var(f, arg)
+                    if not ok:
+                        # a local that only ever holds a stored key (`char * key = m->key;`)
+                        srcs = [x["c"][0] for x in f.walk() if x["k"] == "VarDecl" and x["n"] == arg and x.get("c") and x["c"][0] is not None] + \
+                               [x["c"][1] for x in f.walk() if x["k"] == "BinaryOperator" and x["op"] == "=" and key(x["c"][0]) == arg]
+                        if srcs and all((strip(y) or {}).get("k") == "MemberExpr" and strip(y)["n"] == "key" and strip(y).get("rec") == "meta" for y in srcs):
+                            ok = True
                     why = "`%s` %s" % (arg, "normalised" if ok else "not normalised")
             elif arg.endswith("->key"):
                 ok, why = True, "another stored key"
@@ -381,3 +401,103 @@ def r_wrapbit(P, chk):
                           "%s reads %s outside the wrapper layer: the body rendering can now depend on -f / -s" % (f.name, refs[0]["n"]))
     chk.floor(rid, n, 6, "references to the complete/snippet bits")
     chk.analysed[rid] = {"references": n, "wrapper_layer": sorted(WRAP_LAYER)}
+
+
+# ---------------------------------------------------------------------------
+# R-WRAPPER-PURE (C20): emitting the document header / footer changes nothing the body exporter reads
+
+WRAPPER_MAY_STORE = {"padded": "layout bookkeeping of pad(): how many newlines were just written"}
+
+
+def r_wrapper_pure(P, chk):
+    rid = "R-WRAPPER-PURE"
+    chk.rule(rid, "the document header / footer functions (mmd_start_complete_*, mmd_end_complete_*) store into nothing but their "
+                  "locals and the padding counter: no write through a pointer, no write to metadata, scratch-pad or engine fields "
+                  "that the body exporter reads (the body would render differently with and without the wrapper)")
+    n = 0
+    for f in P.all_funcs:
+        if not P.first_party(f) or not (f.name.startswith("mmd_start_complete") or f.name.startswith("mmd_end_complete")):
+            continue
+        n += 1
+        bad = []
+        for x in f.walk():
+            if x.get("m"):
+                continue
+            if (x["k"] == "BinaryOperator" and x["op"] == "=") or x["k"] == "CompoundAssignOperator" or \
+                    (x["k"] == "UnaryOperator" and x["op"] in ("post++", "pre++", "post--", "pre--")):
+                l = strip(x["c"][0])
+                if l is None or l["k"] == "DeclRefExpr":
+                    continue
+                if l["k"] == "MemberExpr" and l["n"] in WRAPPER_MAY_STORE:
+                    continue
+                bad.append(x)
+        chk.obligation(rid, "%s:%s stores only into locals / the padding counter" % (f.unit.base, f.name), ok=not bad)
+        for x in bad[:1]:
+            chk.violation(rid, "wrapper-pure:%s:%s" % (f.name, key(x["c"][0])[:30]), f.where(x),
+                          "%s writes `%s` while emitting the document wrapper: state read by the body exporter (metadata values, "
+                          "scratch pad) now depends on whether the header was printed" % (f.name, f.src(x)[:50]))
+    chk.floor(rid, n, 4, "document header / footer functions")
+    for k2, why in WRAPPER_MAY_STORE.items():
+        chk.notes.append("R-WRAPPER-PURE allows stores to `%s`: %s" % (k2, why))
+
+
+# ---------------------------------------------------------------------------
+# R-METAWINDOW (C11): a blank line ends the metadata block
+
+def r_metawindow(P, chk):
+    rid = "R-METAWINDOW"
+    chk.rule(rid, "mmd_assign_line_type: every branch of the first-token dispatch that classifies a line as LINE_EMPTY also clears "
+                  "e->allow_meta on the same path (a whitespace-only line ends the metadata block; otherwise `word: text` body lines "
+                  "after it are read as further keys)")
+    f = P.func("mmd_assign_line_type", "mmd.c")
+    if f is None:
+        raise AnalysisBroken("mmd_assign_line_type is gone")
+    sws = [x for x in f.walk() if x["k"] == "SwitchStmt" and key(x["c"][0]).endswith("->type")]
+    if not sws:
+        raise AnalysisBroken("mmd_assign_line_type: no dispatch on the first token")
+    sw = sws[0]
+    from .lalr import Tables
+    T = Tables(P)
+    empty = [v for v in range(1, T.nterminal) if T.name(v) == "LINE_EMPTY"]
+    if not empty:
+        raise AnalysisBroken("parser terminal LINE_EMPTY not found")
+    stores = [x for x in walk(sw) if x["k"] == "BinaryOperator" and x["op"] == "=" and key(x["c"][0]).endswith("->type")
+              and const_value(x["c"][1]) == empty[0]]
+    pos = f.cfg.positions()
+    clears = [x for x in f.walk() if x["k"] == "BinaryOperator" and x["op"] == "=" and key(x["c"][0]).endswith("->allow_meta")
+              and const_value(x["c"][1]) == 0 and x["i"] in pos]
+    cpos = {}
+    for c in clears:
+        b, i = pos[c["i"]]
+        cpos.setdefault(b, []).append(i)
+    n = 0
+    for s in stores:
+        if s["i"] not in pos:
+            continue
+        n += 1
+        b0, i0 = pos[s["i"]]
+        # cleared before the store on every path from the switch?  or after it on every path to the exit?
+        ok = any(f.cfg.dominates(c["i"], s["i"]) and any(x is c for x in walk(sw)) for c in clears)
+        if not ok:
+            if any(i > i0 for i in cpos.get(b0, ())):
+                ok = True
+            else:
+                leak = False
+                seen, st = set(), list(f.cfg.blocks[b0].rsucc)
+                while st:
+                    b = st.pop()
+                    if b in seen:
+                        continue
+                    seen.add(b)
+                    if b in cpos:
+                        continue
+                    if b == f.cfg.exit:
+                        leak = True
+                        break
+                    st.extend(f.cfg.blocks[b].rsucc)
+                ok = not leak
+        chk.obligation(rid, "%s: LINE_EMPTY classification clears allow_meta" % f.where(s), ok=ok)
+        if not ok:
+            chk.violation(rid, "metawindow:%s" % f.name, f.where(s), "a line is classified LINE_EMPTY here without clearing e->allow_meta: the "
+                          "metadata block does not end at this blank line")
+    chk.floor(rid, n, 2, "LINE_EMPTY classifications in the first-token dispatch")
